@@ -15,12 +15,13 @@ META = dict(
     id='C05',
     level='proof',
     technique='Coq proof (account-tree totals, running totals and lot stripping of the report model refine per-commodity sums over the selected postings) + differential correspondence of the extracted model against ledger bal/reg + Fractions oracle across bal and reg',
-    level_text='Theorems in coq/Properties/Properties_C05.v state, for all posting lists and all option records, that the model of account_t::amount/total, calc_posts, the limit predicates, the -B amount expression and strip_annotations satisfies: an account total is the per-commodity sum over the selected postings of its sub-tree; a parent total is its own amount plus its children\'s totals; the n-th running total is the sum of the first n row amounts and the last one is the grand total; the balance of an account equals the sum of the register rows under it (parametric in the selection predicate and the amount expression, so for every option combination); --flat/--depth/--empty only choose rows; stripping lots preserves every per-base-commodity sum. The model is tied to the code by comparing every bal row, total line and reg row (exact rationals, precision counters, row order, which rows are printed) of freshly built ledger with the extracted model on thousands of generated (journal, option set) pairs.',
+    level_text='Theorems in coq/Properties/Properties_C05.v state, for all posting lists and all option records, that the model of account_t::amount/total, calc_posts, the limit predicates, the -B amount expression and strip_annotations satisfies: an account total is the per-commodity sum over the selected postings of its sub-tree; a parent total is its own amount plus its children\'s totals; the n-th running total is the sum of the first n row amounts and the last one is the grand total; the balance of an account equals the sum of the register rows under it (parametric in the selection predicate and the amount expression, so for every option combination); --flat/--depth/--empty only choose rows; stripping lots preserves every per-base-commodity sum. Model/Deferred.v transcribes how postings reach account->posts (add_post, or add_deferred_post keyed by the transaction id and apply_deferred_posts for `<Account>` postings, shape facts regenerated into Gen/DeferredPosts.v): account->posts of every account is a permutation of the journal\'s postings to it, so every identity also holds between the balance over account->posts and the register over xact->posts. The model is tied to the code by comparing every bal row, total line and reg row (exact rationals, precision counters, row order, which rows are printed) of freshly built ledger with the extracted model on thousands of generated (journal, option set) pairs.',
     level_note='Trusted: Coq kernel; extraction + OCaml driver and the python harness for the correspondence; the journal reader and xact_t::finalize are outside the model (the model input is the posting list as finalize leaves it, predicted by the harness: lot annotation {price} [date] from a cost, cost = per-unit x quantity with summed precision) and are validated through the same comparison; account/payee patterns are literal case-insensitive substrings; unordered_map / pointer-ordered map iteration orders are unspecified (results that depend on them are compared as sets).',
     design_ref='DESIGN.md section 7 C05',
     assumptions=['directives in the generated journals: bucket / A / account+default, apply account (one level), alias (defined at top level), year / Y, apply tag',
                  'query patterns are literal [A-Za-z0-9] substrings (regex = substring)',
                  'commodity symbols avoid the predefined time commodities s/m/h',
+                 'transaction ids are distinct (a second transaction with the UUID of an earlier one is outside the model)',
                  'a posting carries either a lot annotation or a cost, not both (the gain/loss adjustment of finalize is C01 territory)'],
 )
 
@@ -1347,6 +1348,15 @@ def one_journal(ctx, res, j, opts, tag):
             res.count('multi-commodity-total')
         if any('~' in bytes.fromhex(h).decode('utf-8', 'replace') for r in reg for h in re.findall(r'A:([0-9a-f]+):', canon_value(r[1]))):
             res.count('lot-annotated-rows')
+        if not o.empty and len(reg_ne) < len(reg):
+            # rows `reg` does not print without --empty (display_filter_posts: the display amount
+            # prints as zero): count those whose exact amount is NOT zero - they are in every total
+            k = 0
+            for r in reg:
+                if k < len(reg_ne) and (reg_ne[k][0], reg_ne[k][1]) == (r[0], r[1]):
+                    k += 1
+                elif denote(canon_value(r[1])):
+                    res.count('display:nonzero-posting-hidden-as-display-zero')
         if nsel >= 2 and (multi or nested):
             res.nontrivial.add(o.key() + '\n' + text)
         if len(res.samples) < 4 and nsel >= 3 and nested:
@@ -1357,7 +1367,7 @@ def run(ctx, n_override=None):
     rng = ctx.rng
     res = lib.Result()
     res.rule = ('generated accepted journals (1-12 transactions, account trees of depth 1-6, 1-5 commodities, lot annotations, '
-                '@/@@ costs, virtual and balanced-virtual postings, state flags) x option sets over --real, --cleared/--uncleared/'
+                '@/@@ costs, virtual and balanced-virtual postings, deferred `<Account>` postings incl. amount-less ones, state flags) x option sets over --real, --cleared/--uncleared/'
                 '--pending, -B, --lots/--lot-prices/--lot-dates/--lot-notes, --flat, --depth n, --empty, an account or @payee term; '
                 'non-trivial = at least two selected postings and a multi-commodity total or nested displayed accounts; '
                 'distinct by (option set, journal text)')
